@@ -98,6 +98,11 @@ def run_C06(ctx):
                "decls": decls}
         why, _ = C.formula_cost_params(ctx, rec, len(usable), [r["f"], r["f"]])
         if why is None:
+            # the base must contain the values of the numerals of the formula (a wrongly rendered numeral must be able to hit an atom)
+            rec["pp"]["lo"] = max(min(numer + [-1]), -4)
+            rec["pp"]["hi"] = min(max(numer + [2]), 4)
+            rec["pp"]["wlo"] = min(rec["pp"]["wlo"], rec["pp"]["lo"] - 1)
+            rec["pp"]["whi"] = max(rec["pp"]["whi"], rec["pp"]["hi"] + 1)
             usable.append(rec)
         else:
             skipped[why] = skipped.get(why, 0) + 1
